@@ -7,6 +7,7 @@ import (
 	"math/big"
 	"sort"
 	"strings"
+	"sync"
 
 	"github.com/indexsupply/shovel/shovel"
 
@@ -85,8 +86,21 @@ func rowStr(t *fakepg.Table, r *fakepg.Row) string {
 	return sb.String()
 }
 
+// identAlias: table name -> identity field -> the column the scenario's declaration stores it in (only for
+// scenarios that bind identity fields to columns of other names).
+var identAlias sync.Map
+
+func identCol(t *fakepg.Table, field string) int {
+	if m, ok := identAlias.Load(t.Name); ok {
+		if col, ok := m.(map[string]string)[field]; ok {
+			return t.ColIdx(col)
+		}
+	}
+	return t.ColIdx(field)
+}
+
 func rowBlockNum(t *fakepg.Table, r *fakepg.Row) (uint64, bool) {
-	ci := t.ColIdx("block_num")
+	ci := identCol(t, "block_num")
 	if ci < 0 {
 		return 0, false
 	}
@@ -100,10 +114,10 @@ func rowBlockNum(t *fakepg.Table, r *fakepg.Row) (uint64, bool) {
 }
 
 func rowOwner(t *fakepg.Table, r *fakepg.Row) (src, ig string) {
-	if ci := t.ColIdx("src_name"); ci >= 0 {
+	if ci := identCol(t, "src_name"); ci >= 0 {
 		src, _ = r.Vals[ci].(string)
 	}
-	if ci := t.ColIdx("ig_name"); ci >= 0 {
+	if ci := identCol(t, "ig_name"); ci >= 0 {
 		ig, _ = r.Vals[ci].(string)
 	}
 	return
